@@ -30,7 +30,8 @@ def _alarm(signum, frame):
 
 def err_kind(e):
     n = type(e).__name__
-    return 'err:' + (n if n in ('TypeError', 'AttributeError', 'ValueError', 'OverflowError') else 'Other:' + n)
+    return 'err:' + (n if n in ('TypeError', 'AttributeError', 'ValueError', 'OverflowError', 'KeyError', 'IndexError',
+                              'NotImplementedError') else 'Other:' + n)
 
 
 def show_num(x):
@@ -182,6 +183,18 @@ def _do(op):
         return show_timex(d.TimexHelpers.timex_time_add(d.Timex(op[1]), d.Timex(op[2])))
     if k == 'durvalue':
         return 'S' + cps(d.TimexValue.duration_value(d.Timex(op[1])))
+    if k == 'tostr':
+        return 'S' + cps(d.Timex(op[1]).to_string())
+    if k == 'settostr':
+        return 'S' + cps(d.TimexConvert.convert_timex_set_to_string(d.TimexSet(op[1])))
+    if k == 'torel':
+        ref = datetime.datetime(op[2], op[3], op[4]) + datetime.timedelta(seconds=op[5])
+        return 'S' + cps(d.Timex(op[1]).to_natural_language(ref))
+    if k == 'creator':
+        f = getattr(d.TimexCreator, op[1])
+        ref = datetime.datetime(op[2], op[3], op[4], 13, 14, 15)
+        v = f(op[5], ref) if op[1] == 'next_weeks_from_today' else f(ref)
+        return 'N' if v is None else 'S' + cps(v)
     if k == 'ctorseq':  # several constructions formatted one after the other IN THIS ORDER in one process
         return [d.Timex(**dict(kw)).timex_value() for kw in op[1]]
     if k == 'ctor':  # regex-independent direction: fields -> Timex(...) -> format -> parse back
@@ -304,6 +317,12 @@ def line_of(op):
         return 'tx.%s\t%d\t%d\t%s' % (k, op[1], len(op[2]), '\t'.join('%d\t%d' % p for p in op[2]))
     if k in ('dateadd', 'timeadd'):
         return 'tx.%s\t%s\t%s' % (k, cps(op[1]), cps(op[2]))
+    if k in ('tostr', 'settostr'):
+        return 'tx.%s\t%s' % (k, cps(op[1]))
+    if k == 'torel':
+        return 'tx.torel\t%s\t%d\t%d\t%d\t%d' % (cps(op[1]), op[2], op[3], op[4], op[5])
+    if k == 'creator':
+        return 'tx.creator\t%s\t%d\t%d\t%d' % (op[1], op[2], op[3], op[4]) + ('\t%d' % op[5] if len(op) > 5 else '')
     raise ValueError(k)
 
 
